@@ -189,7 +189,10 @@ func (rr *realRun) applyAct(act string, msg *message.Message) {
 }
 
 // userMW is the harness-written middleware layer of the ctx-replace classes.
-func userMW(l layer, rr *realRun, next message.HandlerFunc) message.HandlerFunc {
+func userMW(l layer, idx int, sc *scenario, rr *realRun, next message.HandlerFunc) message.HandlerFunc {
+	if l.UMPre != "" || l.UMPost != "" {
+		return userMetaMW(l, idx, sc, rr, next)
+	}
 	return func(msg *message.Message) ([]*message.Message, error) {
 		seen := msg.Context()
 		if l.URestore {
